@@ -48,7 +48,8 @@ def handleC17 (op : String) (args : Array Json) : Option Json := do
     let ops ← (← jArr? (arg args 2)).toList.mapM parseRegOp
     let (p0, _) := Proc.runR treeRepairs {} init
     let (p, errs) := Proc.runR treeRepairs p0 ops
-    let gap := guardGap treeRepairs p0 ops
+    -- only meaningful (and only computed) when the tree has the depth guard
+    let gap := if treeRepairs.depthGuard then guardGap treeRepairs p0 ops else (0, 0)
     some (Json.mkObj [
       ("errs", Json.arr (errs.map errJ).toArray),
       ("fns", natListJ p.fns),
